@@ -100,6 +100,39 @@ def run(ctx):
                         norm.show(N(ix, ex9.c(mv[2]["quote_asset_amount"])))[:120], norm.show(N(ix, ex9.c(sym.field(tv[-1], "open_notional"))))[:120])
         ctx.inst("R04.9", "recorded-notional-is-swapped-quote:OpenPosition", bad9 is None and n9 > 0, ex9.fn.where(),
                  bad9 or "%d increase emissions: SwapInput.quote_asset_amount == recorded open_notional" % n9)
+    # ---- R04.11: what a partial close (and a reduce through OpenPosition) realises: the record's unrealised pnl times
+    # the fraction of the position that was exchanged, both as magnitudes - |output| / |position.size| - whatever the side
+    # (round-12 seed C04o divided by the signed size in the partial-close reply: for a short the loss was booked as a gain,
+    # the margin inflated and the bad-debt rejection never fired)
+    ctx.rule("R04.11", "a partial close / reduce realises tmp.unrealized_pnl * |output| / |position.size| (magnitudes on both sides of the fraction)", 2)
+    for ckey in ("ClosePosition>id5", "OpenPosition>id2"):
+        st11 = em.reply_step(ckey)
+        if st11 is None:
+            ctx.lost("R04.11", ckey)
+            continue
+        _inp, outp11 = em.reply_io(st11)
+        out_n = N(ix, st11.c(outp11)) if outp11 is not None else None
+        bad11 = None
+        n11 = 0
+        for q in st11.ok_paths():
+            for e in em.remain_margin_calls(q):
+                md = N(ix, st11.c(e.args[-1]))
+                if md == ("pos", ("int", 0)) or md == ("int", 0):
+                    # (an empty position realises nothing - only on a path that has established size == 0)
+                    continue
+                xh = anyhole("exchanged")
+                mm = match(("idiv", ("imul", em.tmp_leaf("unrealized_pnl"), ("abs", xh)), ("abs", em.pos_field_leaf("size"))), md)
+                if mm is None:
+                    bad11 = bad11 or "the realised pnl is %s" % norm.show(md)[:220]
+                    continue
+                xv = mm.get("exchanged")
+                if out_n is not None and xv not in (("pos", out_n), ("neg", out_n), out_n):
+                    bad11 = bad11 or "the exchanged amount in the close ratio is %s, not the swap's output" % norm.show(xv)[:160]
+                    continue
+                n11 += 1
+        ctx.inst("R04.11", "realised-pnl:%s" % ckey, bad11 is None and n11 > 0, st11.fn.where(),
+                 bad11 or "%d settlements: tmp.unrealized_pnl * |output| / |position.size|" % n11)
+
     ctx.rule("R04.10", "every settlement (remain-margin computation) of a chain step is made on the stored record: its own margin, funding checkpoint and size - not a copy already netted of funding or clamped (the bad-debt test would not see what exceeds the margin)", 6)
     settled_on_stored_record_instances(ctx, em, "R04.10")
     from .balance import balance_instances
